@@ -17,20 +17,21 @@ EXTENDS Huffman, TLC, Json, IOUtils
 
 Rec == ndJsonDeserialize(IOEnv.TRACE)
 
-VARIABLES l, slots, skip, errs, cleared, wrapped
-vars == <<l, slots, skip, errs, cleared, wrapped>>
+VARIABLES l, slots, skip, errs, cleared, wrapped, copied
+vars == <<l, slots, skip, errs, cleared, wrapped, copied>>
 
 LensOf(ps) == [s \in {ps[i][1] : i \in 1..Len(ps)} |-> ps[CHOOSE i \in 1..Len(ps) : ps[i][1] = s][2]]
 
 \* a mismatch is printed at once (ERR line) and counted; `errs` is the count
 \* `cleared`: slots that were cleared earlier in this run - a rejection on such a slot also
 \* means that clear() did not make the container fresh (C08)
-SlotOf(e) == IF "s" \in DOMAIN e THEN e.s ELSE IF "d" \in DOMAIN e THEN e.d ELSE 0
+SlotOf(e) == IF e.ev \in {"merge", "copy"} THEN e.d ELSE IF "s" \in DOMAIN e THEN e.s ELSE 0
 Err(e, why) == IF PrintT(<<"ERR", ToJson([line |-> l, run |-> e.run, why |-> why,
                                           afterclear |-> SlotOf(e) \in cleared,
-                                          wrapped |-> SlotOf(e) \in wrapped])>>) THEN errs + 1 ELSE errs
+                                          wrapped |-> SlotOf(e) \in wrapped,
+                                          copied |-> SlotOf(e) \in copied])>>) THEN errs + 1 ELSE errs
 
-Init == l = 1 /\ slots = <<>> /\ skip = FALSE /\ errs = 0 /\ cleared = {} /\ wrapped = {}
+Init == l = 1 /\ slots = <<>> /\ skip = FALSE /\ errs = 0 /\ cleared = {} /\ wrapped = {} /\ copied = {}
 
 \* why a logged length table is not an optimal code for the spec's statistics
 CodeDefect(lens, counts) ==
@@ -75,6 +76,12 @@ Step(e) ==
                   IN  IF why = "ok"
                       THEN slots' = [slots EXCEPT ![e.d] = CodedSlot(lens)] /\ UNCHANGED <<skip, errs>>
                       ELSE errs' = Err(e, why) /\ skip' = TRUE /\ UNCHANGED slots
+    [] e.ev = "copy" ->
+         \* clone / clone_from: the destination becomes the source in every respect (mode, code, cursor,
+         \* statistics, issued items); what the copy answers afterwards is judged like any container
+         IF e.panic THEN errs' = Err(e, "copy-panicked") /\ skip' = TRUE /\ UNCHANGED slots
+         ELSE IF ~e.same THEN errs' = Err(e, "copy-reads-differently") /\ skip' = TRUE /\ UNCHANGED slots
+         ELSE slots' = [slots EXCEPT ![e.d] = slots[e.s]] /\ UNCHANGED <<skip, errs>>
     [] e.ev = "clear" ->
          IF e.panic
          THEN errs' = Err(e, "clear-panicked") /\ skip' = TRUE /\ UNCHANGED slots
@@ -95,6 +102,8 @@ Next == /\ l <= Len(Rec)
         /\ cleared' = IF Rec[l].ev = "reset" THEN {}
                       ELSE IF Rec[l].ev = "clear" THEN cleared \cup {Rec[l].s}
                       ELSE IF Rec[l].ev = "merge" THEN cleared \ {Rec[l].d}
+                      ELSE IF Rec[l].ev = "copy"
+                           THEN IF Rec[l].s \in cleared THEN cleared \cup {Rec[l].d} ELSE cleared \ {Rec[l].d}
                       ELSE cleared
         \* `wrapped`: containers that received a read item of another container as input (C20), and
         \* the containers whose code was built from their statistics
@@ -103,7 +112,14 @@ Next == /\ l <= Len(Rec)
                       ELSE IF Rec[l].ev = "merge"
                            THEN IF \E i \in 1..Len(Rec[l].srcs) : Rec[l].srcs[i] \in wrapped
                                 THEN wrapped \cup {Rec[l].d} ELSE wrapped \ {Rec[l].d}
+                      ELSE IF Rec[l].ev = "copy"
+                           THEN IF Rec[l].s \in wrapped THEN wrapped \cup {Rec[l].d} ELSE wrapped \ {Rec[l].d}
                       ELSE wrapped
+        \* `copied`: containers produced by clone / clone_from (C09)
+        /\ copied' = IF Rec[l].ev = "reset" THEN {}
+                     ELSE IF Rec[l].ev = "copy" THEN copied \cup {Rec[l].d}
+                     ELSE IF Rec[l].ev = "merge" THEN copied \ {Rec[l].d}
+                     ELSE copied
         /\ (l = Len(Rec)) => PrintT(<<"DONE", l, errs'>>)
 
 Spec == Init /\ [][Next]_vars
